@@ -69,6 +69,7 @@ pub fn generate(rng: &mut Rng, tier: Tier, stats: &mut GenStats) -> Scenario {
         layers: vec![],
         taps: g.rng.chance(1, 4),
         erased: false,
+        form: g.rng.below(8) as u8,
     };
     if g.rng.chance(7, 10) {
         w.source = Source::Glob {
